@@ -220,6 +220,8 @@ pub struct PShadow {
     pub nops: usize,
     /// the participant's memory may be gone (handle dropped and no guard left)
     pub gone: bool,
+    /// the call in progress is a reactivation of a guard that is not the only live one
+    pub nonsole: bool,
 }
 #[derive(Clone, Debug, Default)]
 pub struct TShadow {
@@ -308,12 +310,14 @@ impl Ctl {
     pub fn start(&mut self, t: usize, op: Op) {
         *self.op_hits.entry(op.name()).or_default() += 1;
         // ghost effects that belong to the *start* of a call
+        self.ps[t].nonsole = false;
         match &op {
             Op::Unpin(i) => {
                 self.ps[t].guards[*i] = false;
                 self.ps[t].ug -= 1;
             }
             Op::React(_) | Op::ReactAfter(_, _) => {
+                self.ps[t].nonsole = self.ps[t].ug > 1;
                 if self.ps[t].ug == 1 {
                     self.ps[t].ug = 0; // a sole guard's critical section ends when the call starts
                 }
@@ -457,7 +461,7 @@ impl Ctl {
             let li = if p.gone || p.local_id == 0 { verif::LocalInfo::default() } else { unsafe { verif::peek_local(p.local_id) } };
             let _ = write!(
                 s,
-                "{{\"lep\":{},\"pin\":{},\"gc\":{},\"hc\":{},\"bag\":{},\"col\":{},\"ug\":{},\"inst\":{},\"busy\":{},\"gone\":{},\"op\":\"{}\"}}",
+                "{{\"lep\":{},\"pin\":{},\"gc\":{},\"hc\":{},\"bag\":{},\"col\":{},\"ug\":{},\"inst\":{},\"busy\":{},\"gone\":{},\"nonsole\":{},\"op\":\"{}\"}}",
                 li.epoch,
                 li.pinned,
                 li.guard_count,
@@ -468,6 +472,7 @@ impl Ctl {
                 p.inst,
                 self.ws[i].busy,
                 p.gone,
+                p.nonsole && p.cur.is_some(),
                 p.cur.as_ref().map(|o| o.name()).unwrap_or("")
             );
         }
@@ -789,7 +794,6 @@ pub fn guard_programs(ctl: &mut Ctl, len: usize) -> usize {
     let n = all.len();
     for (idx, p) in all.iter().enumerate() {
         ctl.reset(&format!("dir:guard_program:{}", idx), 1, vec![vec![]]);
-        ctl.run(1, Op::Pin); // observer
         for (c, i) in p {
             match c {
                 0 => ctl.run(0, Op::Pin),
@@ -798,10 +802,71 @@ pub fn guard_programs(ctl: &mut Ctl, len: usize) -> usize {
                 3 => ctl.run(0, Op::ReactAfter(*i, false)),
                 _ => ctl.run(0, Op::ReactAfter(*i, true)),
             }
+            cycle(ctl, 1); // the observer tries to advance the epoch after every call
         }
         ctl.finisher(2);
     }
     n
+}
+
+/// Mutant `RepinNonSole`: reactivate() on an inner guard must not end the outer critical section.
+pub fn react_inner(ctl: &mut Ctl, rounds: usize, after: bool) {
+    ctl.reset(&format!("dir:react_inner:{}:{}", rounds, after), 1, vec![vec![]]);
+    ctl.run(0, Op::Pin);
+    ctl.run(0, Op::Pin);
+    ctl.run(1, Op::Pin);
+    let g1 = ctl.ps[1].guards.len() - 1;
+    ctl.run(1, Op::Defer { g: g1, k: 0, size: 0 });
+    ctl.run(1, Op::Flush(g1));
+    ctl.run(1, Op::Unpin(g1));
+    for _ in 0..rounds {
+        if after {
+            ctl.run(0, Op::ReactAfter(1, false));
+        } else {
+            ctl.run(0, Op::React(1));
+        }
+        cycle(ctl, 1);
+    }
+    ctl.finisher(10);
+}
+
+/// Mutant `AdvanceSkipsSelf`: a participant that lags one epoch behind must not advance the clock itself.
+pub fn self_advance(ctl: &mut Ctl, rounds: usize) {
+    ctl.reset(&format!("dir:self_advance:{}", rounds), 1, vec![vec![]]);
+    ctl.run(0, Op::Pin);
+    ctl.run(1, Op::Pin);
+    let g1 = ctl.ps[1].guards.len() - 1;
+    ctl.run(1, Op::Defer { g: g1, k: 0, size: 0 });
+    ctl.run(1, Op::Flush(g1));
+    ctl.run(1, Op::Unpin(g1)); // may advance once: t0 is pinned in the current epoch
+    for _ in 0..rounds {
+        ctl.run(0, Op::Advance(0)); // t0 lags by one: must be refused by its own announcement
+    }
+    cycle(ctl, 1);
+    cycle(ctl, 1);
+    ctl.finisher(10);
+}
+
+/// Mutant `PinLagOne`: the pinner reads the epoch; one advance completes; a second advancer scans
+/// past the still unannounced pinner and stands before its store; the pinner publishes and validates.
+pub fn pin_vs_two_advances(ctl: &mut Ctl, at: u32) {
+    ctl.reset(&format!("dir:pin_vs_two_advances:{}", at), 1, vec![vec![]]);
+    ctl.start(0, Op::Pin);
+    ctl.run_to(0, site::E_PIN_PUBLISH); // has read the epoch, not yet announced
+    cycle(ctl, 1); // first advance completes
+    ctl.run(1, Op::Pin);
+    let g1 = ctl.ps[1].guards.len() - 1;
+    ctl.start(1, Op::Advance(g1));
+    ctl.run_to(1, at); // second advancer: after (part of) its scan
+    ctl.finish(0); // pinner announces and validates
+    ctl.finish(1); // second advancer stores
+    ctl.run(1, Op::Defer { g: g1, k: 0, size: 0 });
+    ctl.run(1, Op::Flush(g1));
+    ctl.run(1, Op::Unpin(g1));
+    for _ in 0..4 {
+        cycle(ctl, 1);
+    }
+    ctl.finisher(10);
 }
 
 pub fn run_family(ctl: &mut Ctl, fam: &str) -> usize {
@@ -813,7 +878,22 @@ pub fn run_family(ctl: &mut Ctl, fam: &str) -> usize {
             n += 1;
         }
     }
+    if all || fam == "c13" || fam == "c16" {
+        for r in [1, 4, 5] {
+            react_inner(ctl, r, false);
+            react_inner(ctl, r, true);
+            n += 2;
+        }
+    }
     if all || fam == "c13" || fam == "c14" {
+        for r in [1, 4, 5] {
+            self_advance(ctl, r);
+            n += 1;
+        }
+        for at in [site::E_ADV_SCAN, site::E_ADV_STORE] {
+            pin_vs_two_advances(ctl, at);
+            n += 1;
+        }
         for k in 1..=3 {
             for at in [site::E_PIN_PUBLISH, site::E_PIN_VALIDATE] {
                 pin_vs_advance(ctl, k, at);
